@@ -7,12 +7,14 @@ use serde::{de::DeserializeOwned, Serialize};
 use std::marker::PhantomData;
 use sylvia::ctx::{ExecCtx, InstantiateCtx, QueryCtx, SudoCtx};
 
-/// A: used directly in exec; B: only inside Vec<Option<B>> in sudo; R: only as a query response; U: unused.
-pub struct Gen<A, B, R, U> {
+/// A: used directly in exec; B: only inside Vec<Option<B>> in sudo; R: only as a query response; U: unused;
+/// V: only as the explicit `resp=` type of a query.
+pub struct Gen<A, B, R, U, V> {
     pub calls: Calls,
-    _p: PhantomData<(A, B, R, U)>,
+    _p: PhantomData<(A, B, R, U, V)>,
 }
 
+pub type GenResult<X> = Result<X, Echo>;
 pub trait Pair<X> {}
 impl<X, Y> Pair<X> for Y {}
 pub trait Small: Into<u64> + Copy {}
@@ -21,13 +23,15 @@ impl Small for u8 {}
 
 #[sylvia::contract]
 #[sv::error(Echo)]
-impl<A, B, R, U> Gen<A, B, R, U>
+impl<A, B, R, U, V> Gen<A, B, R, U, V>
 where
     A: Serialize + DeserializeOwned + std::fmt::Debug + Clone + PartialEq + schemars::JsonSchema + Small + 'static,
     // B's predicate also mentions the unused U: it must not leak onto SudoMsg<B>
     B: Serialize + DeserializeOwned + std::fmt::Debug + Clone + PartialEq + schemars::JsonSchema + Pair<U> + 'static,
     R: Serialize + DeserializeOwned + std::fmt::Debug + Clone + PartialEq + schemars::JsonSchema + From<u8> + 'static,
     U: 'static,
+    // V occurs ONLY as the explicit resp= type of a query
+    V: Serialize + DeserializeOwned + std::fmt::Debug + Clone + PartialEq + schemars::JsonSchema + 'static,
 {
     pub const fn new() -> Self {
         Gen { calls: Calls::new(), _p: PhantomData }
@@ -62,6 +66,13 @@ where
         let mut o = Obs::new(4);
         o.args[0] = items.len() as u64;
         o.args[1] = k;
+        Err(Echo::H(o))
+    }
+    #[sv::msg(query, resp=V)]
+    fn g_resp_only(&self, ctx: QueryCtx, k: u64) -> GenResult<V> {
+        self.calls.hit(6);
+        let mut o = Obs::new(6);
+        o.args[0] = k;
         Err(Echo::H(o))
     }
     #[sv::msg(query)]
@@ -103,7 +114,7 @@ pub mod proofs {
     fn c15_fx_generic_dispatch_exec() {
         let mut s = S(Cell::new(77)); let a = A(Cell::new(0)); let q = Q(Cell::new(0));
         let h: u64 = kani::any(); let x: u32 = kani::any(); let n: u64 = kani::any();
-        let c = Gen::<u32, u8, u8, ()>::new();
+        let c = Gen::<u32, u8, u8, (), u8>::new();
         let deps = DepsMut { storage: &mut s, api: &a, querier: QuerierWrapper::<Empty>::new(&q) };
         // the message type is named with exactly the parameter it uses
         let msg: sv::ExecMsg<u32> = sv::ExecMsg::GExec { a: x, n };
@@ -122,7 +133,7 @@ pub mod proofs {
     fn c15_fx_generic_dispatch_other_instantiation() {
         let mut s = S(Cell::new(77)); let a = A(Cell::new(0)); let q = Q(Cell::new(0));
         let x: u8 = kani::any(); let n: u64 = kani::any(); let k: u64 = kani::any();
-        let c = Gen::<u8, u32, u8, String>::new();
+        let c = Gen::<u8, u32, u8, String, u8>::new();
         {
             let deps = DepsMut { storage: &mut s, api: &a, querier: QuerierWrapper::<Empty>::new(&q) };
             let msg: sv::ExecMsg<u8> = sv::ExecMsg::GExec { a: x, n };
@@ -134,7 +145,7 @@ pub mod proofs {
         }
         {
             let deps = Deps { storage: &s, api: &a, querier: QuerierWrapper::<Empty>::new(&q) };
-            let msg: sv::QueryMsg<u8> = sv::QueryMsg::GQuery { k };
+            let msg: sv::QueryMsg<u8, u8> = sv::QueryMsg::GQuery { k };
             let r = core::mem::ManuallyDrop::new(msg.dispatch(&c, (deps, env(1))));
             match &*r {
                 Err(Echo::H(o)) => assert!(o.h == 5 && o.args[0] == k),
@@ -168,7 +179,7 @@ pub mod proofs {
         let key = match pick { 0 => "__phantom", 1 => "_phantom", 2 => "phantom", _ => "_Phantom" };
         assert!(sv::ExecMsg::<u32>::deserialize(script::ED { key, fields: &none }).is_err());
         assert!(sv::SudoMsg::<u8>::deserialize(script::ED { key, fields: &none }).is_err());
-        assert!(sv::QueryMsg::<u8>::deserialize(script::ED { key, fields: &none }).is_err());
+        assert!(sv::QueryMsg::<u8, u8>::deserialize(script::ED { key, fields: &none }).is_err());
         kani::cover!(true, "end of harness reachable");
     }
 
@@ -194,7 +205,10 @@ pub mod proofs {
         let m: sv::SudoMsg<OnlyB> = sv::SudoMsg::GSudo { items: vec![None, Some(OnlyB)], k: 1 };
         // T-END fx_generic.T.sudo_msg_params_exact
         // T-BEGIN fx_generic.T.query_msg_params_exact
-        let m: sv::QueryMsg<OnlyR> = sv::QueryMsg::GQuery { k: 1 };
+        // QueryMsg carries exactly two parameters, R and V (V occurs only as resp=); the order of the two is not
+        // part of the property, so both are instantiated with the same type
+        let m: sv::QueryMsg<OnlyR, OnlyR> = sv::QueryMsg::GQuery { k: 1 };
+        let m2: sv::QueryMsg<OnlyR, OnlyR> = sv::QueryMsg::GRespOnly { k: 1 };
         // T-END fx_generic.T.query_msg_params_exact
         // T-BEGIN fx_generic.T.instantiate_msg_no_params
         let m: sv::InstantiateMsg = sv::InstantiateMsg { seed: 1 };
@@ -203,8 +217,11 @@ pub mod proofs {
         fn enc<X: serde::Serialize + serde::de::DeserializeOwned + schemars::JsonSchema>() {}
         enc::<sv::ExecMsg<OnlyA>>();
         enc::<sv::SudoMsg<OnlyB>>();
-        enc::<sv::QueryMsg<OnlyR>>();
+        enc::<sv::QueryMsg<OnlyR, OnlyR>>();
         // T-END fx_generic.T.messages_encodable_with_only_used_params
+        // T-BEGIN fx_generic.T.accepted
+        let _ = Gen::<u32, u8, u8, (), u8>::new();
+        // T-END fx_generic.T.accepted
         // T-BEGIN fx_generic.T.assoc_iface_msg_params
         // interface with associated types: ExecMsg over P only, QueryMsg over Q only
         let m: assoc::sv::ExecMsg<OnlyB> = assoc::sv::ExecMsg::AsExec { p: OnlyB, n: 1 };
